@@ -1,4 +1,4 @@
-package props
+package gen
 
 import (
 	"unsafe"
@@ -6,10 +6,10 @@ import (
 	"github.com/trajectoryjp/spatial_id_go/v4/common/object"
 )
 
-// rawPoint builds an object.Point whose stored fields are exactly (lon, lat, alt).
+// RawPoint builds an object.Point whose stored fields are exactly (lon, lat, alt).
 // object.Point is struct{lon, lat, alt float64}; SetLat would re-truncate an already stored latitude, so the
-// stored value is written directly (harness only; checked once at start-up by rawPointSelfTest).
-func rawPoint(lon, lat, alt float64) *object.Point {
+// stored value is written directly (harness only; checked once at start-up by RawPointSelfTest).
+func RawPoint(lon, lat, alt float64) *object.Point {
 	p := &object.Point{}
 	f := (*[3]float64)(unsafe.Pointer(p))
 	f[0], f[1], f[2] = lon, lat, alt
